@@ -39,6 +39,14 @@ Record c03_case := {
   k_round2 : option c03_round
 }.
 
+(* concepts may be listed with their extent_i / intent_i in any order (from_objects(is_extent=True),
+   hand-made FormalConcept, JSON with permuted Inds): the MODEL runs on the listing as it is, the
+   SPECIFICATION speaks about sets, i.e. about the ascending listing *)
+Fixpoint insert_nat (x : nat) (l : list nat) : list nat :=
+  match l with [] => [x] | y :: l' => if Nat.leb x y then x :: l else y :: insert_nat x l' end.
+Definition sort_nat (l : list nat) : list nat := fold_right insert_nat [] l.
+Definition canon_concept (c : concept) : concept := (sort_nat (fst c), sort_nat (snd c)).
+
 Definition concept_eqb (c d : concept) : bool :=
   nat_list_eqb (fst c) (fst d) && nat_list_eqb (snd c) (snd d).
 Definition lists_eqb := list_eqb nat_list_eqb.
@@ -161,7 +169,7 @@ Definition completeb (t : table) (cs : list concept) : bool :=
   else complete_by_generation t (map fst cs).
 
 Definition c03_spec_ok (c : c03_case) : bool :=
-  let t := k_table c in let cs := k_concepts c in
+  let t := k_table c in let cs := map canon_concept (k_concepts c) in
   let exts := map fst cs in let ints := map snd cs in let n := length cs in
   let complete := completeb t cs in
   Nat.eqb (k_err c) 0 && wfb t && round2_same c &&
